@@ -13,7 +13,11 @@ pub fn run_case(c: &J) -> J {
     let mut cc = c.clone();
     cc["kind"] = json!("bw");
     cc["chroms"] = J::Array((0..nch).map(|_| json!(40)).collect());
-    cc["opts"] = json!({"ips": 2, "bs": 2, "zooms": [], "zmode": "manual", "compress": 1, "inmem": 1, "threads": 1, "rt": "current", "pass": 1, "chan": 100});
+    // chromosomes that do not come in ascending order are written with input sort type START (ids by first appearance)
+    let cs: Vec<i64> = c["items"].as_array().unwrap().iter().map(|it| it[0].as_i64().unwrap()).collect();
+    let sorted = cs.windows(2).all(|w| w[0] <= w[1]);
+    cc["opts"] = json!({"ips": 2, "bs": 2, "zooms": [], "zmode": "manual", "compress": 1, "inmem": 1, "threads": 1, "rt": "current", "pass": 1, "chan": 100,
+                        "sort": if sorted { "all" } else { "start" }});
     let ctx = Ctx::from(&cc);
     let sink = crate::sinks::SharedSink::default();
     if let Err(e) = write_file(&cc, &ctx, sink.clone()) {
